@@ -28,6 +28,9 @@ def find_normalizer(ctx):
 
 def run(ctx, rep):
     ix, T = ctx.ix, ctx.typer
+    from .common import check_fast_paths
+    _fp_mods = ["jaqalpaq.core.algorithm.unit_timing"]
+    check_fast_paths(ctx, rep, "C19.4", [f for f in ix.functions.values() if f.module in _fp_mods and (f.cls is None or T.is_visitor(f.cls))], None)
     vis = find_normalizer(ctx)
     tr = visitor_transformer(ctx, vis)
     rep.analysed["visitor"] = vis
